@@ -485,7 +485,7 @@ fn probes(ctx: &Ctx) {
 }
 
 pub fn run(ctx: &Ctx) -> i32 {
-    let n = ctx.tier.pick(4_000u64, 400_000u64);
+    let n = ctx.tier.pick(4_000u64, 3_000_000u64);
     fw::par_for(n, 64, |i| {
         let mut rng = Rng::for_case(ctx.seed, 0xC02, i);
         let p = gen_program(&mut rng, 60);
